@@ -59,6 +59,11 @@ CLAIMED = {
    note="Trusted: TLC, Placeholders/Detection/QueryLang specs, /verif backend templates. Unspecified (accepted either way, but never a raw placeholder): query-expression items on mixed strings, regex + placeholder pipeline, empty variable lists, boolean entries. One recorded deviation (alternatives AND-linked under 'all').",
    technique="TLA+ placeholder-expansion model checked with TLC; TLC-generated cases replayed through real pipelines and backend; TLC parses and judges queries / error records",
    ref="6/C17"),
+ "C11": dict(level=MC,
+   text="TLC model-checks the filter renaming MECHANISM against the Ideal (MC_Filter): for every rule condition x filter condition over overlapping / keyword- / digit- / underscore-leading names, the combined condition over the combined, prefixed namespace has the truth table of (rule) AND (filter) over separate namespaces - and TLC exhibits the two captures the mechanism admits (a rule pattern starting with '_', an underscore-leading filter name under a filter pattern). Conformance: TLC-generated (rule set, filter set) pairs are loaded and converted by the real code under two draws of the random prefix; TLC parses the queries and checks per rule and condition: filtered iff the filter applies (log-source containment, rule list by name / id / any / empty), meaning = (rule) AND (filters) with predicates tagged R_/F_ by provenance, bystander rules byte-identical to the unfiltered conversion.",
+   note="Trusted: TLC, Filter/Detection/CondLang/QueryLang specs, /verif backend templates. Equal random prefixes for two stacked filters (probability 26^-10) are not forced. One recorded deviation (underscore-leading filter names).",
+   technique="TLA+ model of filter renaming checked against the ideal semantics with TLC; TLC-generated rule/filter sets replayed into the code; TLC parses and judges the filtered queries",
+   ref="6/C11"),
 }
 REASON_NOT_BUILT = "check not built yet in this round (see DESIGN.md section 6 for the planned TLA+ model); not claimed until its judge is sound"
 ALL = [f"C{i:02d}" for i in range(1, 21)]
